@@ -5,4 +5,5 @@ Extraction "m.ml" xb_add xb_mul xb_div_eucl
   b64_encode b64_decode tink_kid has claim_str claim_time audiences
   new_validator verify new_raw_jwt encode_parts encode jwk_roundtrip
   jwk_export jwk_import jwk_import_handle alg_name
-  json_parse_text json_print_text jwk_import_text jwk_import_handle_text.
+  json_parse_text json_print_text jwk_import_text jwk_import_handle_text
+  lit_class num_x json_parse_x.
